@@ -38,7 +38,8 @@ CONSTANTS Values,       \* sample values of a variable
           TrialReset,   \* BOOLEAN: reset before every trial
           FinalReset,   \* BOOLEAN: reset when the run completes
           CompRebases,  \* BOOLEAN: a compensation re-bases the compensator's initial value (negative variant)
-          MaxUser       \* user what-if steps allowed after a run (0: none)
+          MaxUser,      \* user what-if steps allowed after a run (0: none)
+          CompSkips     \* BOOLEAN: after its first run the compensator does nothing (stale-state negative variant)
 Perts == <<"p1", "p2">>
 NaN == -1                 \* the undefined operand value (operand values are >= 0)
 VARIABLES lens, kinds, stream, compf, fail,      \* the lens; the environment's choices (fixed)
@@ -46,8 +47,9 @@ VARIABLES lens, kinds, stream, compf, fail,      \* the lens; the environment's 
           pval,                                  \* Perturbation.value per perturbation
           phase, k, it,                          \* loop control: perturbation (sens), trial
           rows, session, rows1,
-          initv, usteps                          \* Variable.initial_value per handle; user steps taken
-vars == <<lens, kinds, stream, compf, fail, idx, pos, pval, phase, k, it, rows, session, rows1, initv, usteps>>
+          initv, usteps,                         \* Variable.initial_value per handle; user steps taken
+          didcomp                                \* the compensator of this session has run before
+vars == <<lens, kinds, stream, compf, fail, idx, pos, pval, phase, k, it, rows, session, rows1, initv, usteps, didcomp>>
 HasComp == WithComp
 \* the operand: injective on the grid, undefined on the failure set
 Eval(l) == IF l \in fail THEN NaN ELSE l.p1 + 3 * l.p2 + 9 * l.c
@@ -57,7 +59,7 @@ Init == /\ lens = Nom /\ kinds \in KindSets /\ stream \in Streams /\ fail \in Fa
         /\ compf \in CompFns
         /\ idx = [p \in {"p1", "p2"} |-> 0] /\ pos = 0 /\ pval = NomPert
         /\ phase = "reset" /\ k = 1 /\ it = 1 /\ rows = <<>> /\ session = 1 /\ rows1 = <<>>
-        /\ initv = Nom /\ usteps = 0
+        /\ initv = Nom /\ usteps = 0 /\ didcomp = FALSE
 Env == <<kinds, stream, compf, fail>>
 
 \* Tolerancing.reset(): every perturbation and every compensator back to its initial value
@@ -65,7 +67,7 @@ DoReset == /\ lens' = initv /\ pval' = NomPert
 Reset == /\ phase = "reset"
          /\ IF TrialReset THEN DoReset ELSE UNCHANGED <<lens, pval>>
          /\ phase' = "apply"
-         /\ UNCHANGED <<Env, idx, pos, k, it, rows, session, rows1, initv, usteps>>
+         /\ UNCHANGED <<Env, idx, pos, k, it, rows, session, rows1, initv, usteps, didcomp>>
 \* Perturbation.apply(): sample, remember the value, set the variable
 NeedsStream(ps) == Cardinality({p \in ps : kinds[p] = "dist"})
 Sampled(p, i, q) == CASE kinds[p] = "scalar" -> ScalarVal
@@ -84,9 +86,10 @@ Apply ==
        /\ idx' = [p \in {"p1", "p2"} |-> IF p \in ps /\ kinds[p] = "range" THEN (idx[p] % Len(RangeVals)) + 1 ELSE idx[p]]
        /\ pos' = pos + NeedsStream(ps)
   /\ phase' = "comp"
-  /\ UNCHANGED <<Env, k, it, rows, session, rows1, initv, usteps>>
+  /\ UNCHANGED <<Env, k, it, rows, session, rows1, initv, usteps, didcomp>>
 \* CompensatorOptimizer.run(): the optimiser moves the compensator variable only
-DoCompensate == /\ lens' = IF HasComp THEN [lens EXCEPT !.c = compf[PertOf(lens)]] ELSE lens
+DoCompensate == /\ lens' = IF HasComp /\ ~(CompSkips /\ didcomp) THEN [lens EXCEPT !.c = compf[PertOf(lens)]] ELSE lens
+                /\ didcomp' = (didcomp \/ HasComp)
                 /\ initv' = IF HasComp /\ CompRebases THEN [initv EXCEPT !.c = lens.c] ELSE initv
 Compensate == /\ phase = "comp"
               /\ DoCompensate
@@ -102,11 +105,11 @@ Record == /\ phase = "eval"
              ELSE /\ phase' = "reset"
                   /\ IF Shape = "sens" /\ it = Len(RangeVals) THEN k' = k + 1 /\ it' = 1
                      ELSE k' = k /\ it' = it + 1
-          /\ UNCHANGED <<Env, lens, idx, pos, pval, session, rows1, initv, usteps>>
+          /\ UNCHANGED <<Env, lens, idx, pos, pval, session, rows1, initv, usteps, didcomp>>
 EndRun == /\ phase = "end"
           /\ IF FinalReset THEN DoReset ELSE UNCHANGED <<lens, pval>>
           /\ phase' = "done"
-          /\ UNCHANGED <<Env, idx, pos, k, it, rows, session, rows1, initv, usteps>>
+          /\ UNCHANGED <<Env, idx, pos, k, it, rows, session, rows1, initv, usteps, didcomp>>
 \* the user goes on with the same object: one perturbation applied by hand (its sampler advances) ...
 UserApply(p) ==
   /\ phase \in {"done", "whatif"} /\ usteps < MaxUser
@@ -117,7 +120,7 @@ UserApply(p) ==
   /\ idx' = [idx EXCEPT ![p] = IF kinds[p] = "range" THEN (idx[p] % Len(RangeVals)) + 1 ELSE @]
   /\ pos' = pos + (IF kinds[p] = "dist" THEN 1 ELSE 0)
   /\ phase' = "whatif" /\ usteps' = usteps + 1
-  /\ UNCHANGED <<Env, k, it, rows, session, rows1, initv>>
+  /\ UNCHANGED <<Env, k, it, rows, session, rows1, initv, didcomp>>
 \* ... or apply_compensators() by hand, without a reset in between
 UserCompensate ==
   /\ phase \in {"done", "whatif"} /\ usteps < MaxUser /\ HasComp
@@ -126,13 +129,13 @@ UserCompensate ==
   /\ UNCHANGED <<Env, idx, pos, pval, k, it, rows, session, rows1>>
 \* the user's own reset() after a run / after a what-if
 UserReset == /\ phase \in {"done", "whatif"} /\ DoReset /\ phase' = "done"
-             /\ UNCHANGED <<Env, idx, pos, k, it, rows, session, rows1, initv, usteps>>
+             /\ UNCHANGED <<Env, idx, pos, k, it, rows, session, rows1, initv, usteps, didcomp>>
 \* the same analysis built again with the same seed (fresh samplers, same stream)
 NewSession == /\ phase = "done" /\ session = 1
               /\ session' = 2 /\ rows1' = rows /\ rows' = <<>>
               /\ lens' = Nom /\ pval' = NomPert /\ idx' = [p \in {"p1", "p2"} |-> 0] /\ pos' = 0
               /\ phase' = "reset" /\ k' = 1 /\ it' = 1
-              /\ initv' = Nom /\ usteps' = 0
+              /\ initv' = Nom /\ usteps' = 0 /\ didcomp' = FALSE
               /\ UNCHANGED Env
 Next == Reset \/ Apply \/ Compensate \/ Record \/ EndRun \/ UserReset \/ NewSession
         \/ UserCompensate \/ \E p \in {"p1", "p2"} : UserApply(p)
@@ -146,6 +149,9 @@ Claimed(r) == [p1 |-> IF r.which \in {"all", "p1"} THEN r.pert.p1 ELSE Nom.p1,
                p2 |-> IF r.which \in {"all", "p2"} THEN r.pert.p2 ELSE Nom.p2,
                c |-> r.comp]
 RowsTrue == \A i \in 1..Len(rows) : rows[i].val = Eval(Claimed(rows[i]))
+\* "... followed by the same compensation": the recorded compensator value is what the compensation
+\* of the claimed perturbed lens gives - not merely consistent with the recorded operand
+RowsCompensated == HasComp => \A i \in 1..Len(rows) : rows[i].comp = compf[PertOf(Claimed(rows[i]))]
 NominalReproduced == \A i \in 1..Len(rows) :
                         (PertOf(Claimed(rows[i])) = NomPert /\ rows[i].comp = Nom.c) => rows[i].val = Eval(Nom)
 Reproducible == (session = 2 /\ phase = "done") => rows = rows1
